@@ -52,6 +52,10 @@ type SVal struct {
 	Tok  string
 	Src  ast.Node // the expression that produced the token
 	Deps []string // tokens of the values an arithmetic result was computed from
+	// Pred: the value is the outcome of this condition (`null := n == -1`), evaluated when the variables it
+	// reads held what Snap records; learning the value later says the condition held / did not hold then
+	Pred ast.Expr
+	Snap map[types.Object]string
 }
 
 // SState is the knowledge on one path.
@@ -132,6 +136,14 @@ func (s *SState) key() string {
 	return strings.Join(parts, ";")
 }
 
+// ident: what identifies the value for "has this variable changed since".
+func (v SVal) ident() string {
+	if v.Tok != "" {
+		return "t" + v.Tok
+	}
+	return fmt.Sprintf("k%d/%v/%d", v.Kind, v.B, v.K)
+}
+
 // IntervalOf returns the interval known for a token.
 func (s *SState) IntervalOf(tok string) Interval {
 	if iv, ok := s.Iv[tok]; ok {
@@ -153,6 +165,7 @@ type Sym struct {
 	// UnknownCalls counts calls through function-typed locals whose target the path does not know
 	UnknownCalls int
 	tables       map[*types.Var]tableInfo
+	private      map[*types.Var]bool
 	root         *cfgq.Graph // the graph Run started on (G follows the walk into function literals)
 	tsw          map[*ast.CaseClause]*ast.TypeSwitchStmt
 	escaped      map[types.Object]bool // struct locals whose address is taken: their fields are not tracked
@@ -175,7 +188,11 @@ func (w *Sym) fieldKey(e ast.Expr) (types.Object, bool) {
 		return nil, false
 	}
 	if _, isStruct := base.Type().Underlying().(*types.Struct); !isStruct {
-		return nil, false
+		// a pointer to a struct built here (`p := &T{..}`), defined once and only ever used as p.f: the
+		// pointer never leaves the function, its target is a local in all but name
+		if !w.privatePointer(base) {
+			return nil, false
+		}
 	}
 	if s := info.Selections[sel]; s == nil || s.Kind() != types.FieldVal || len(s.Index()) != 1 {
 		return nil, false
@@ -225,10 +242,82 @@ func (w *Sym) fieldKey(e ast.Expr) (types.Object, bool) {
 	return fieldOf(base, sel.Sel.Name), true
 }
 
+// privatePointer: v is a pointer local with the single definition `v := &T{..}` (or new(T)) whose every
+// other mention is the base of a field selector.
+func (w *Sym) privatePointer(v *types.Var) bool {
+	if r, done := w.private[v]; done {
+		return r
+	}
+	if w.private == nil {
+		w.private = map[*types.Var]bool{}
+	}
+	info := w.G.Info
+	pt, isPtr := v.Type().Underlying().(*types.Pointer)
+	ok := isPtr
+	if isPtr {
+		_, isStruct := pt.Elem().Underlying().(*types.Struct)
+		ok = isStruct
+	}
+	defs := 0
+	if ok {
+		fieldBase := map[*ast.Ident]bool{}
+		core.InspectAll(w.body(), func(n ast.Node) bool {
+			switch x := n.(type) {
+			case *ast.SelectorExpr:
+				if id, isID := ast.Unparen(x.X).(*ast.Ident); isID && core.ObjOf(info, id) == types.Object(v) {
+					if sl := info.Selections[x]; sl != nil && sl.Kind() == types.FieldVal {
+						fieldBase[id] = true
+					}
+				}
+			case *ast.AssignStmt:
+				for i, l := range x.Lhs {
+					if id, isID := ast.Unparen(l).(*ast.Ident); isID && core.ObjOf(info, id) == types.Object(v) {
+						fieldBase[id] = true
+						defs++
+						if len(x.Lhs) != len(x.Rhs) {
+							ok = false
+							continue
+						}
+						r := ast.Unparen(x.Rhs[i])
+						u, isAddr := r.(*ast.UnaryExpr)
+						_, isNew := r.(*ast.CallExpr)
+						if isAddr && u.Op == token.AND {
+							if _, isLit := ast.Unparen(u.X).(*ast.CompositeLit); !isLit {
+								ok = false
+							}
+						} else if !(isNew && IsBuiltin(info, r.(*ast.CallExpr), "new")) {
+							ok = false
+						}
+					}
+				}
+			}
+			return true
+		})
+		core.InspectAll(w.body(), func(n ast.Node) bool {
+			if id, isID := n.(*ast.Ident); isID && info.Uses[id] == types.Object(v) && !fieldBase[id] {
+				ok = false
+			}
+			return ok
+		})
+	}
+	w.private[v] = ok && defs == 1
+	return w.private[v]
+}
+
 // setStruct records what assigning v (the value of rhs) to the struct local o says about its fields.
 func (w *Sym) setStruct(o types.Object, rhs ast.Expr, st *SState) {
 	st.dropFields(o)
 	stt, isStruct := o.Type().Underlying().(*types.Struct)
+	if pt, isPtr := o.Type().Underlying().(*types.Pointer); isPtr && rhs != nil {
+		// p := &T{..}
+		if u, isAddr := ast.Unparen(rhs).(*ast.UnaryExpr); isAddr && u.Op == token.AND {
+			stt, isStruct = pt.Elem().Underlying().(*types.Struct)
+			rhs = u.X
+		} else if call, isCall := ast.Unparen(rhs).(*ast.CallExpr); isCall && IsBuiltin(w.G.Info, call, "new") {
+			stt, isStruct = pt.Elem().Underlying().(*types.Struct)
+			rhs = &ast.CompositeLit{}
+		}
+	}
 	if !isStruct || rhs == nil {
 		return
 	}
@@ -356,6 +445,20 @@ func (w *Sym) Eval(e ast.Expr, st *SState) SVal {
 		}
 	case *ast.BinaryExpr:
 		switch x.Op {
+		case token.EQL, token.NEQ, token.LSS, token.LEQ, token.GTR, token.GEQ, token.LAND, token.LOR:
+			if v, known := w.factTruth(x, st); known {
+				return SVal{Kind: SBool, B: v}
+			}
+			out := SVal{Tok: fmt.Sprintf("expr%p", e), Src: e, Pred: x, Snap: map[types.Object]string{}}
+			core.Inspect(x, func(m ast.Node) bool {
+				if id, ok := m.(*ast.Ident); ok {
+					if o, isVar := core.ObjOf(info, id).(*types.Var); isVar && !o.IsField() {
+						out.Snap[o] = w.Eval(id, st).ident()
+					}
+				}
+				return true
+			})
+			return out
 		case token.ADD, token.SUB, token.MUL, token.QUO, token.REM, token.SHL, token.SHR, token.AND, token.OR, token.XOR:
 			out := SVal{Tok: fmt.Sprintf("expr%p", e), Src: e}
 			for _, o := range []ast.Expr{x.X, x.Y} {
@@ -413,6 +516,11 @@ func (w *Sym) Holds(e ast.Node, st *SState, tok string) bool {
 				hit = true
 			}
 		}
+		for _, was := range v.Snap { // a boolean computed from the value
+			if was == "t"+tok {
+				hit = true
+			}
+		}
 	}
 	core.InspectAll(e, func(m ast.Node) bool {
 		if hit {
@@ -459,6 +567,8 @@ func (w *Sym) apply(n ast.Node, st *SState) {
 			if o := core.ObjOf(info, id); o != nil {
 				st.Env[o] = v
 				if _, isStruct := o.Type().Underlying().(*types.Struct); isStruct {
+					w.setStruct(o, rhsOf, st)
+				} else if pv, isVar := o.(*types.Var); isVar && w.privatePointer(pv) {
 					w.setStruct(o, rhsOf, st)
 				}
 			}
@@ -827,7 +937,25 @@ func (w *Sym) assume(e ast.Expr, val bool, st *SState) []*SState {
 				st.Not[a[0]] = append(st.Not[a[0]], a[1])
 			}
 		}
+		held := w.Eval(x, st)
 		setVar(x, SVal{Kind: SBool, B: val})
+		if held.Pred != nil {
+			// the boolean was computed from a condition over variables that still hold what they held then
+			same := true
+			for o, was := range held.Snap {
+				oid := ast.NewIdent(o.Name())
+				info.Uses[oid] = o
+				if w.Eval(oid, st).ident() != was {
+					same = false
+				}
+			}
+			if same {
+				return w.assumeCond(held.Pred, val, st)
+			}
+			if w.Unlearned != nil {
+				w.Unlearned(e, st) // what the boolean says about values that have changed since cannot be used
+			}
+		}
 		return []*SState{st}
 	case *ast.BinaryExpr:
 		op := x.Op
